@@ -418,6 +418,9 @@ def gen_case(rng, nops=None):
     case = g.run()
     case["ponly"] = True
     case["inh"] = True
+    # a fifth of the histories runs with the recalculation option on: an edit recomputes the leaf dependents at once,
+    # ItemSpaces among them (recalc_itemspace_target, repaired in /repo)
+    case["recalc"] = rng.random() < 0.2
     case["kinds"] = g.kinds
     case["avoided"] = dict(g.avoided)
     case["precautions"] = g.precautions
